@@ -687,6 +687,7 @@ struct EventVisitor
         if(stopped) o.err("callback after stop: " + e);
         if(!o.s.empty()) o.s += " | ";
         o.s += e;
+        if(o.s.size() > (8u << 20)) rt::output_limit_exceeded();
         count++;
         if(count == stop_at) stopped = true;
     }
@@ -760,7 +761,8 @@ int main()
         rt::g_budget = 0;
         o.kv("calls", rt::g_calls);
 #endif
-        if(g.kind == 3) std::cout << "BUDGET " << o.s << std::endl;
+        if(g.kind == 4) std::cout << "OUTLIMIT output of this case exceeded 8 MiB (traversal abandoned)" << std::endl;
+        else if(g.kind == 3) std::cout << "BUDGET " << o.s << std::endl;
         else if(g.kind == 1) std::cout << "ASSERT " << g.expr << " || " << o.s << std::endl;
         else if(g.kind == 2) std::cout << "SEGV " << (static_cast<unsigned char*>(g.fault_addr) - gb.end()) << " || " << o.s << std::endl;
         else if(!known) std::cout << "ERR unknown command" << std::endl;
